@@ -1010,7 +1010,9 @@ func runPipe(op string) string {
 				r.mu.Lock()
 				holder, inFlight := r.turnBlk, r.subsInFlight
 				r.mu.Unlock()
-				if c.name == "wturn" && holder >= 0 {
+				if c.name == "wturn" && (holder >= 0 || inFlight == 0) {
+					// a holder is blocked with the turn — or every background Submit has
+					// already returned (the pipeline was not full after all): nothing to wait for
 					break
 				}
 				if c.name == "wgu" && ((holder >= 0 && inFlight <= 1) || inFlight == 0) {
